@@ -152,13 +152,16 @@ Verdict judgeImpl(const Case& c, bool gp, bool strictRect = false) {
 #endif
   bool useD = m <= (int64_t(1) << 50) && c.I("useD", 1);
   int maxLevel = 0;
+  PolyTree64 sharedTree;
+  PolyTreeD sharedTreeD;
   for (ClipType ct : CTS)
     for (FillRule fr : FRS)
       for (int pc = 0; pc < 2; ++pc)
         for (int rev = 0; rev < 2; ++rev) {
           std::string cfg = std::string(" [") + O::ctName(ct) + "," + O::frName(fr) + ",pc=" + std::to_string(pc) + ",rev=" + std::to_string(rev) + "]";
           Paths64 solP, openP, openT;
-          PolyTree64 tree;
+          // one tree object serves every configuration of a case: Execute must replace its content, not add to it
+          PolyTree64& tree = sharedTree;
           {
             Clipper64 cl; cl.PreserveCollinear(pc); cl.ReverseSolution(rev);
             cl.AddSubject(subj); cl.AddClip(clip); if (!open.empty()) cl.AddOpenSubject(open);
@@ -211,26 +214,30 @@ Verdict judgeImpl(const Case& c, bool gp, bool strictRect = false) {
           // ---- PolyTreeD ----
           PathsD sd = TransformPaths<double, int64_t>(subj), cd = TransformPaths<double, int64_t>(clip), od = TransformPaths<double, int64_t>(open);
           PathsD solPD, openPD, openTD;
-          PolyTreeD treeD;
+          PolyTreeD& treeD = sharedTreeD;
+          // the precision alternates between configurations, so the shared tree is re-filled by clippers of different scale
+          int dp = (((int)ct + (int)fr) & 1) ? (int)c.I("prec", 2) : 0;
+          double mul = 2; while (mul <= std::pow(10.0, dp)) mul *= 2;   // ClipperD's grid: smallest power of two above 10^precision
+          if ((double)m * mul > 4e15) { dp = 0; mul = 2; }
           {
-            ClipperD cl(0); cl.PreserveCollinear(pc); cl.ReverseSolution(rev);
+            ClipperD cl(dp); cl.PreserveCollinear(pc); cl.ReverseSolution(rev);
             cl.AddSubject(sd); cl.AddClip(cd); if (!od.empty()) cl.AddOpenSubject(od);
             if (!cl.Execute(ct, fr, solPD, openPD)) { v.fail("ClipperD Execute(paths) returned false" + cfg); return v; }
           }
           {
-            ClipperD cl(0); cl.PreserveCollinear(pc); cl.ReverseSolution(rev);
+            ClipperD cl(dp); cl.PreserveCollinear(pc); cl.ReverseSolution(rev);
             cl.AddSubject(sd); cl.AddClip(cd); if (!od.empty()) cl.AddOpenSubject(od);
             if (!cl.Execute(ct, fr, treeD, openTD)) { v.fail("ClipperD Execute(tree) returned false" + cfg); return v; }
           }
           v.evals++;
-          // compare in doubled integer coordinates (ClipperD(0) works on a 2x grid)
+          // compare in the integer coordinates of ClipperD's internal grid (mul = 2 at precision 0)
           std::vector<Node> nd;
           bool exact = true;
-          flattenD(treeD, -1, 2.0, nd, exact);
+          flattenD(treeD, -1, mul, nd, exact);
           Paths64 tp, pp;
           for (size_t k = 1; k < nd.size(); ++k) tp.push_back(nd[k].poly);
-          for (auto& p : solPD) { Path64 q; for (auto& pt : p) { double x = pt.x * 2, y = pt.y * 2; if (x != std::floor(x) || y != std::floor(y)) exact = false; q.emplace_back((int64_t)x, (int64_t)y); } pp.push_back(q); }
-          if (!exact) { v.fail("ClipperD(precision 0) result is not on the half-unit grid" + cfg); return v; }
+          for (auto& p : solPD) { Path64 q; for (auto& pt : p) { double x = pt.x * mul, y = pt.y * mul; if (x != std::floor(x) || y != std::floor(y)) exact = false; q.emplace_back((int64_t)x, (int64_t)y); } pp.push_back(q); }
+          if (!exact) { v.fail("ClipperD(precision " + std::to_string(dp) + ") result is not on its 1/" + std::to_string((int)mul) + " grid" + cfg); return v; }
           if (O::canon(tp) != O::canon(pp)) { v.fail("PolyTreeD paths differ from PathsD result" + cfg); return v; }
           auto cmpOpen = [](PathsD a, PathsD b) {
             auto less = [](const PathD& x, const PathD& y) { return std::lexicographical_compare(x.begin(), x.end(), y.begin(), y.end(), [](const PointD& p, const PointD& q) { return p.x != q.x ? p.x < q.x : p.y < q.y; }); };
